@@ -5,6 +5,12 @@ import (
 	"fmt"
 	"reflect"
 
+	bpmn "github.com/olive-io/bpmn/v2"
+
+	"verif/internal/drive"
+	"verif/internal/perturb"
+	"verif/internal/quiesce"
+
 	"verif/internal/fw"
 	"verif/internal/gen"
 	"verif/internal/step"
@@ -20,6 +26,10 @@ type c12Case struct {
 	Storm  bool             `json:"storm"`
 	Reps   int              `json:"reps"`
 	Family string           `json:"family"`
+	// Overlap: two tokens enter the same sub-process node while the other is still inside; Hist is the order
+	// of the actions (a, b = send the first / second token in; i = answer the oldest pending inner task)
+	Overlap bool     `json:"overlap,omitempty"`
+	Hist    []string `json:"hist,omitempty"`
 }
 
 func c12Cases(tier string, seed uint64) []fw.Case {
@@ -39,6 +49,11 @@ func c12Cases(tier string, seed uint64) []fw.Case {
 		}
 	}
 	var cs []fw.Case
+	// two tokens inside one sub-process node at the same time
+	for _, h := range [][]string{{"a", "b", "i", "i"}, {"a", "i", "b", "i"}, {"b", "a", "i", "i"}, {"a", "b"}, {"a", "b", "i"}} {
+		c := c12Case{Name: fmt.Sprintf("overlap/%v", h), Overlap: true, Hist: h}
+		cs = append(cs, fw.MkCase("overlap", &c))
+	}
 	for _, p := range progs {
 		nblocks := p.AST.Count()
 		// wrap: each block kind at least once over the corpus + PRNG choices
@@ -177,6 +192,133 @@ func reclass(v *fw.V, cls string) {
 	}
 }
 
+// c12Overlap: start -> fork -> ta, tb -> XM -> S{ start -> inner -> end } -> after -> end. Every token that
+// enters S makes `inner` be requested once; every answered `inner` lets one parent token continue (`after`).
+func c12Overlap(c *c12Case, env *fw.Env, v *fw.V) {
+	g := gen.NewGraph("c12o")
+	s := g.Add(gen.Start, "start", "")
+	f := g.Add(gen.And, "fork", "")
+	ta := g.Add(gen.Task, "ta", "")
+	tb := g.Add(gen.Task, "tb", "")
+	xm := g.Add(gen.Xor, "XM", "")
+	sp := g.Add(gen.Sub, "S", "")
+	is := g.Add(gen.Start, "is", "S")
+	inner := g.Add(gen.Task, "inner", "S")
+	ie := g.Add(gen.End, "ie", "S")
+	after := g.Add(gen.Task, "after", "")
+	e := g.Add(gen.End, "end", "")
+	g.Connect(s, f, nil)
+	g.Connect(f, ta, nil)
+	g.Connect(f, tb, nil)
+	g.Connect(ta, xm, nil)
+	g.Connect(tb, xm, nil)
+	g.Connect(xm, sp, nil)
+	g.Connect(is, inner, nil)
+	g.Connect(inner, ie, nil)
+	g.Connect(sp, after, nil)
+	g.Connect(after, e, nil)
+	defs, _, err := step.Parse(g)
+	if err != nil {
+		v.Inconclusive("parse", "%v", err)
+		return
+	}
+	perturb.Off()
+	in, err := drive.New(env.Label, defs, drive.Opts{ExtraSubs: 1})
+	if err != nil {
+		v.Violate("new-process-error", "error", "%v", err)
+		return
+	}
+	defer in.Cancel()
+	if err := in.Start(); err != nil {
+		v.Violate("start-error", "error", "%v", err)
+		return
+	}
+	entered, answered := 0, 0
+	lagged := false
+	check := func(what string) bool {
+		q := in.Quiesce(step.Watchdog)
+		v.Add("qpoints", 1)
+		if !q.Quiescent {
+			v.Inconclusive("watchdog", "no quiescent point %s: %v", what, quiesce.Summary(q.Gs))
+			return false
+		}
+		if got := in.Count("Task", "inner"); got != entered && !lagged {
+			// recorded once; the run goes on so that the parent's continuations, the totals and completion are
+			// still decided for this history
+			lagged = true
+			rule := "overlap-inner-requests"
+			if got > entered {
+				rule = "overlap-inner-requests-extra"
+			}
+			v.Violate(rule, "two-tokens", "%s: %d token(s) have entered the sub-process but its inner task was requested %d times; history %v", what, entered, got, c.Hist)
+			v.Log = in.Tail(40)
+		}
+		if got := in.Count("Task", "after"); got != answered {
+			v.Violate("overlap-parent-continuations", "two-tokens", "%s: %d inner token(s) have been consumed but the task behind the sub-process was requested %d times; history %v", what, answered, got, c.Hist)
+			v.Log = in.Tail(40)
+			return false
+		}
+		return true
+	}
+	if !check("after start") {
+		return
+	}
+	for i, a := range c.Hist {
+		var want string
+		switch a {
+		case "a":
+			want = "ta"
+		case "b":
+			want = "tb"
+		default:
+			want = "inner"
+		}
+		var req *drive.Req
+		for _, r := range in.Pending() {
+			if r.Act == want && req == nil {
+				req = r
+			}
+		}
+		if req == nil {
+			break // history not applicable any further
+		}
+		in.Answer(req, bpmn.DoWithResults(nil))
+		if want == "inner" {
+			answered++
+		} else {
+			entered++
+		}
+		if !check(fmt.Sprintf("after step %d (%s)", i, a)) {
+			return
+		}
+	}
+	// drain
+	for guard := 0; guard < 6; guard++ {
+		p := in.Pending()
+		if len(p) == 0 {
+			break
+		}
+		for _, r := range p {
+			if r.Act == "inner" {
+				answered++
+			} else if r.Act == "ta" || r.Act == "tb" {
+				entered++
+			}
+			in.Answer(r, bpmn.DoWithResults(nil))
+		}
+		if !check("while draining") {
+			return
+		}
+	}
+	if got := in.Count("Task", "inner"); got != 2 {
+		v.Violate("overlap-inner-total", "two-tokens", "two tokens entered the sub-process, its inner task was requested %d times in total; history %v", got, c.Hist)
+	}
+	if n := in.Count("CeaseFlow", ""); n != 1 {
+		v.Violate("overlap-not-complete", "two-tokens", "every task answered but %d cease-flow traces; history %v", n, c.Hist)
+		v.Log = in.Tail(40)
+	}
+}
+
 func init() {
 	fw.Register(&fw.Prop{
 		ID:    "C12",
@@ -188,7 +330,11 @@ func init() {
 				v.Inconclusive("descriptor", "%v", err)
 				return v
 			}
-			c12Run(&cc, env, v)
+			if cc.Overlap {
+				c12Overlap(&cc, env, v)
+			} else {
+				c12Run(&cc, env, v)
+			}
 			v.Nontrivial = true
 			return v
 		},
